@@ -262,7 +262,10 @@ def run_impl(df, expo, p, weights, missing, miss_den, solver='closed', snm=None,
         observe = None
         if hr is not None and hr.uniform() < 0.5:
             observe = [['summary', {'decimal': int(hr.choice(SUMMARY_DECIMALS))} if hr.uniform() < 0.8 else {}]]
-    drawn = {'history': history, 'names': names or 'canonical', 'observe': observe}
+    conv = kw.pop('conv', 'auto')
+    if conv == 'auto':
+        conv = 'positional' if (hr is not None and hr.uniform() < 0.3) else 'keyword'
+    drawn = {'history': history, 'names': names or 'canonical', 'observe': observe, 'conv': conv or 'keyword'}
     try:
         return _run_impl(df, expo, p, weights, missing, miss_den, solver, snm, mm, drawn, kw)
     except Exception as e:       # noqa: BLE001  -- the drawn history / names / reporting calls go with it
@@ -275,17 +278,35 @@ def _run_impl(df, expo, p, weights, missing, miss_den, solver, snm, mm, drawn, k
     import contextlib
     import io
     history, names, observe = drawn['history'], drawn['names'], drawn['observe']
+    pos = drawn.get('conv') == 'positional'
     nm = NAMESETS[names or 'canonical']
     back = {v: k for k, v in nm.items()}
 
     def r(text):
         return rename_tokens(text, nm)
-    g = GEstimationSNM(df.rename(columns=nm), exposure=r('A'), outcome=r('Y'), weights=r('wt') if weights else None)
-    g.exposure_model(r(expo), print_results=False)
+    # call convention (round 4): by keyword, or every argument POSITIONALLY in the documented order
+    #   GEstimationSNM(df, exposure, outcome, weights=None); exposure_model(model, print_results=True);
+    #   missing_model(model_denominator, model_numerator=None, stabilized=True, bound=False, print_results=True);
+    #   fit(solver='closed', starting_value=None, alpha_value=0, tolerance=1e-7, verbose_solver=False, maxiter=500)
+    if pos:
+        g = GEstimationSNM(df.rename(columns=nm), r('A'), r('Y'), r('wt') if weights else None)
+        g.exposure_model(r(expo), False)
+    else:
+        g = GEstimationSNM(df.rename(columns=nm), exposure=r('A'), outcome=r('Y'), weights=r('wt') if weights else None)
+        g.exposure_model(r(expo), print_results=False)
     g.structural_nested_model(r(snm))
 
     def miss():
-        g.missing_model(r(miss_den), stabilized=(missing == 'model_stab'), print_results=False)
+        if pos:
+            g.missing_model(r(miss_den), None, missing == 'model_stab', False, False)
+        else:
+            g.missing_model(r(miss_den), stabilized=(missing == 'model_stab'), print_results=False)
+
+    def final_fit():
+        if pos:
+            g.fit(solver, kw.get('starting_value'), 0, 1e-7, False, kw.get('maxiter', 500))
+        else:
+            g.fit(solver=solver, **kw)
     if history == 'fit_then_missing_model':
         g.fit(solver='closed')
         miss()
@@ -307,7 +328,8 @@ def _run_impl(df, expo, p, weights, missing, miss_den, solver, snm, mm, drawn, k
     g._verif_history = history
     g._verif_names = names or 'canonical'
     g._verif_observe = observe
-    g.fit(solver=solver, **kw)
+    g._verif_conv = drawn.get('conv', 'keyword')
+    final_fit()
     g._verif_psi_at_fit = np.array(g.psi, dtype=float, copy=True)
     g._verif_labels_at_fit = [rename_tokens(str(x), back) for x in g.psi_labels]
     g._verif_observe_raised = []
@@ -399,19 +421,21 @@ def frame_from_record(rec):
 
 
 def check_closed(chk, drv, df, ytype, p, weights, missing, expo, miss_den, seedinfo, snm=None, history='auto',
-                 names='auto', observe='auto'):
+                 names='auto', observe='auto', conv='auto'):
     snm = snm or SNMS[p]
     cell = (ytype, p, bool(weights), missing)
     case = {'kind': 'closed', 'ytype': ytype, 'snm': snm, 'weights': bool(weights), 'missing': missing,
             'exposure_model': expo, 'missing_model': miss_den, 'n': len(df), 'data': frame_record(df),
             'seedinfo': seedinfo}
     try:
-        g = run_impl(df, expo, p, weights, missing, miss_den, snm=snm, history=history, names=names, observe=observe)
+        g = run_impl(df, expo, p, weights, missing, miss_den, snm=snm, history=history, names=names, observe=observe,
+                     conv=conv)
         psi = g._verif_psi                  # read after the reporting calls (if any), labels in canonical names
         labels = g._verif_labels
         case['history'] = g._verif_history
         case['names'] = g._verif_names
         case['observe'] = g._verif_observe
+        case['conv'] = g._verif_conv
         err = None
     except Exception as e:       # noqa: BLE001  -- any exception on valid input is a finding
         psi, err, g, labels = None, '%s: %s' % (type(e).__name__, e), None, None
@@ -451,6 +475,7 @@ def check_closed(chk, drv, df, ytype, p, weights, missing, expo, miss_den, seedi
     chk.count('snm_written:' + snm.replace(' ', ''))
     chk.count('history:%s' % (case.get('history') or 'fresh').split(':')[0])
     chk.count('names:%s' % (case.get('names') or 'canonical'))
+    chk.count('call_convention:%s' % (case.get('conv') or 'keyword'))
     chk.d(err is None, 'GEstimationSNM.fit(closed) runs on valid input', case)
     if err is not None:
         return None
@@ -459,7 +484,7 @@ def check_closed(chk, drv, df, ytype, p, weights, missing, expo, miss_den, seedi
     if case.get('history'):
         try:
             g2 = run_impl(df, expo, p, weights, missing, miss_den, snm=snm, history=None, names=case['names'],
-                          observe=None)
+                          observe=None, conv='keyword')
             fresh = dict(zip(g2._verif_labels, g2._verif_psi))
             ok = set(fresh) == set(labels) and all(close(fresh[l], q, rtol=1e-9, atol=1e-11)
                                                     for l, q in zip(labels, psi))
@@ -580,7 +605,8 @@ def hterms_k(chk, drv, g, models, case):
           {'case': case, 'psi_labels': labels, 'impl_terms': impl_terms, 'model': rep})
 
 
-def check_root_criterion(chk, df, ytype, p, weights, missing, expo, miss_den, closed, names='auto', drv=None):
+def check_root_criterion(chk, df, ytype, p, weights, missing, expo, miss_den, closed, names='auto', drv=None,
+                         conv='auto'):
     """D, deterministic (no reliance on where Nelder-Mead ends): the closed-form psi is a root of the estimating
     equations, and the search solver's criterion -- sum |alpha| of the H(psi) terms added to the exposure model --
     measures exactly that association, so it vanishes at the closed-form root.  A search started AT the closed form and
@@ -597,7 +623,8 @@ def check_root_criterion(chk, df, ytype, p, weights, missing, expo, miss_den, cl
     try:
         with FormulaSpy() as spy:
             g = run_impl(df, expo, p, weights, missing, miss_den, solver='search', snm=closed['snm'], history=None,
-                         names=names, observe=None, starting_value=[float(x) for x in closed['psi']], maxiter=1)
+                         names=names, observe=None, conv=conv,
+                         starting_value=[float(x) for x in closed['psi']], maxiter=1)
         fun = float(g._scipy_solver_obj.fun)
         labels_s = g._verif_labels
     except Exception as e:       # noqa: BLE001
@@ -605,6 +632,7 @@ def check_root_criterion(chk, df, ytype, p, weights, missing, expo, miss_den, cl
         chk.d(False, 'GEstimationSNM.fit(search) runs on valid input', dict(case, impl_error=repr(e), names=names))
         return
     case['names'] = names
+    case['conv'] = g._verif_conv
     case['criterion_at_closed_form'] = fun
     chk.case(case, ('root_criterion', closed['snm'], names, bool(weights), missing, ytype, hash(df.to_csv())))
     chk.count('root_criterion:p%d/%s/%s' % (p, 'w' if weights else 'nw', missing))
@@ -618,7 +646,7 @@ def check_root_criterion(chk, df, ytype, p, weights, missing, expo, miss_den, cl
 
 
 def check_search(chk, df, ytype, p, weights, missing, expo, miss_den, closed, start_mode, history='auto',
-                 observe='auto'):
+                 observe='auto', conv='auto'):
     """closed vs search (numerical; Nelder-Mead)"""
     psi_c = closed['psi']
     if start_mode == 'zero':
@@ -630,7 +658,7 @@ def check_search(chk, df, ytype, p, weights, missing, expo, miss_den, closed, st
     case.update({'kind': 'search', 'start': start})
     try:
         g = run_impl(df, expo, p, weights, missing, miss_den, solver='search', snm=closed['snm'], history=history,
-                     names=closed['names'], observe=observe, starting_value=start, maxiter=600)
+                     names=closed['names'], observe=observe, conv=conv, starting_value=start, maxiter=600)
         res = g._scipy_solver_obj
         psi_s = g._verif_psi
         labels_s = g._verif_labels
@@ -650,6 +678,7 @@ def check_search(chk, df, ytype, p, weights, missing, expo, miss_den, closed, st
     psi_s = np.array([by_label[l] for l in closed['labels']], dtype=float)
     case['history'] = getattr(g, '_verif_history', None)
     case['observe'] = g._verif_observe
+    case['conv'] = g._verif_conv
     case['search_fun'] = float(res.fun)
     case['search_nit'] = int(res.nit)
     chk.case(case, ('search', p, bool(weights), missing, ytype, hash(df.to_csv())))
@@ -684,7 +713,7 @@ def check_objective(chk, drv, df, ytype, p, weights, missing, expo, miss_den, cl
     case['kind'] = 'objective'
     try:
         g = run_impl(df, expo, p, weights, missing, miss_den, solver='search', snm=closed['snm'], history=None,
-                     names=closed['names'], observe=None, maxiter=1)
+                     names=closed['names'], observe=None, conv='keyword', maxiter=1)
         res = g._scipy_solver_obj
         x = dict(zip(g._verif_labels, np.asarray(res.x, dtype=float)))
         x = np.array([x[l] for l in closed['labels']], dtype=float)
@@ -736,10 +765,10 @@ def check_saturated(chk, drv, rng, ytype, weights, missing, seedinfo):
 
 
 def eval_saturated(chk, drv, df, ytype, weights, missing, expo, strata_cols, degenerate, seedinfo, history='auto',
-                   names='auto', observe='auto'):
+                   names='auto', observe='auto', conv='auto'):
     miss_den = 'A + V'
     res = check_closed(chk, drv, df, ytype, 1, weights, missing, expo, miss_den, seedinfo, history=history,
-                       names=names, observe=observe)
+                       names=names, observe=observe, conv=conv)
     if res is None:
         return
     cc, w, psi = res['ref']['cc'], res['ref']['w'], res['psi']
@@ -798,7 +827,7 @@ def eval_singular(chk, drv, df):
     case = {'kind': 'singular', 'data': frame_record(df)}
     chk.case(case, ('singular', hash(df.to_csv())))
     try:
-        run_impl(df, 'W + L', 2, False, 'none', None, history=None, names='canonical', observe=None)
+        run_impl(df, 'W + L', 2, False, 'none', None, history=None, names='canonical', observe=None, conv='keyword')
         impl = 'ok'
     except np.linalg.LinAlgError:
         impl = 'singular'
@@ -916,14 +945,15 @@ def replay(rec):
             print('no data stored for', f.get('what'), case if case else '')
             continue
         key = (case.get('kind'), json.dumps(case['data'], sort_keys=True), case.get('snm'), str(case.get('history')),
-               str(case.get('start')), str(case.get('names')), str(case.get('observe')))
+               str(case.get('start')), str(case.get('names')), str(case.get('observe')), str(case.get('conv')))
         if key in seen:
             continue
         seen.add(key)
         df = frame_from_record(case['data'])
         chk = common.Check('C15', 'replay', 0)
         kind = case.get('kind')
-        nmo = dict(names=case.get('names') or 'canonical', observe=case.get('observe'))
+        nmo = dict(names=case.get('names') or 'canonical', observe=case.get('observe'),
+                   conv=case.get('conv') or 'keyword')
         with common.quiet():
             try:
                 if kind == 'singular':
@@ -938,21 +968,22 @@ def replay(rec):
                                        {'replay': True}, history=case.get('history'), **nmo)
                     elif kind in ('search', 'root_criterion'):
                         res = check_closed(chk, None, df, *cfg, {'replay': True}, snm=case['snm'], history=None,
-                                           names=nmo['names'], observe=None)
+                                           names=nmo['names'], observe=None, conv='keyword')
                         if res is not None and kind == 'search':
                             check_search(chk, df, *cfg, res, 'zero' if case.get('start') is None else 'near',
-                                         history=case.get('history'), observe=case.get('observe'))
+                                         history=case.get('history'), observe=case.get('observe'), conv=nmo['conv'])
                         elif res is not None:
-                            check_root_criterion(chk, df, *cfg, res)
+                            check_root_criterion(chk, df, *cfg, res, conv=nmo['conv'])
                     else:
                         check_closed(chk, None, df, *cfg, {'replay': True}, snm=case['snm'],
                                      history=case.get('history'), **nmo)
                 err = None
             except Exception as e:       # noqa: BLE001
                 err = repr(e)
-        print('%s case: %s %s weights=%s missing=%s exposure_model=%r history=%s column names=%s reporting calls=%s n=%d'
+        print('%s case: %s %s weights=%s missing=%s exposure_model=%r history=%s column names=%s reporting calls=%s call convention=%s n=%d'
               % (kind, case.get('ytype'), case.get('snm'), case.get('weights'), case.get('missing'),
-                 case.get('exposure_model'), case.get('history'), case.get('names'), case.get('observe'), len(df)))
+                 case.get('exposure_model'), case.get('history'), case.get('names'), case.get('observe'),
+                 case.get('conv'), len(df)))
         if err:
             print('   raised:', err)
             rc = 1
